@@ -643,6 +643,17 @@ func (in *Interp) scanRow(row []Value, dests SliceVal) Value {
 			return in.newError(fmt.Sprintf("sql: Scan error on column index %d: %s", i, msg))
 		}
 		switch {
+		case et.String() == "database/sql.NullInt64":
+			// {Int64 int64; Valid bool}: NULL -> {0,false}, an integer -> {v,true}
+			nv := &StructVal{F: []Value{f.Int(0), f.False}}
+			if src != nil {
+				t, ok := src.(*sym.Term)
+				if !ok {
+					return colErr(fmt.Sprintf("converting driver.Value type %T to a NullInt64", src))
+				}
+				nv = &StructVal{F: []Value{t, f.True}}
+			}
+			in.storeInto(dc, et, nv)
 		case isIntType(et):
 			if src == nil {
 				return colErr("converting NULL to " + et.String() + " is unsupported")
